@@ -256,7 +256,41 @@ def run(index, tier="quick", seed=0) -> Result:
     _dispatch(res, index, writers)
     from ..parallel import report as _copy1
     _copy1(res, index, lambda f: f['module'] == 'coxeter.io')
+    _mean2(res, index, io)
     return res
+
+
+def _mean2(res, index, io):
+    """MEAN-2: a writer records the shape as it is: no decision it takes and nothing it writes depends on the unweighted mean of
+    the vertices (a test of a facet against the vertex mean re-decides the orientation the shape stores, and is right only for
+    solids that are star-shaped about that point)."""
+    from ..interp import Interp
+    from ..values import ObjRef, Val
+    n = 0
+    for name in TEXT_WRITERS:
+        fn = io.functions.get(name)
+        if fn is None or not fn.params:
+            continue
+        for cname in ("Polyhedron", "ConvexPolyhedron"):
+            it = Interp(index)
+            shape = Val(kind="obj", obj=ObjRef(index.cls(cname), "shape"), dim=("TOP",))
+            try:
+                r = it.run_entry(fn, None, args={fn.params[0]: shape})
+            except RecursionError:
+                continue
+            n += 1
+            hits = [e for e in r["events"] if e.func is fn and ((e.type == "cmp" and any(d[0] == "vertex-mean" for v_ in (e.left, e.right) if v_ is not None for d in v_.deps))
+                                                            or (e.type == "filewrite" and any(d[0] == "vertex-mean" for a_ in (e.f.get("args") or ()) for d in a_.deps)))]
+            k = f"io.{name}[{cname}]"
+            if hits:
+                e = hits[0]
+                res.bad("MEAN-2", f"io.{name}:vertex-mean", e.where(), f"io.{name} {'decides' if e.type == 'cmp' else 'writes'} `{e.src()[:60]}` from the unweighted mean of the "
+                        "vertices: facets of a non-convex solid that face a concavity lie on the far side of that point although they are oriented correctly, "
+                        "so the file no longer describes the stored surface")
+                break
+            res.ok("MEAN-2", k, nontrivial=False)
+    if n < 8:
+        raise AnalysisError(f"MEAN-2: only {n} (writer, class) runs completed (10 confirmed)")
 
 
 def _walk(parts):
